@@ -59,7 +59,7 @@ public:
 	*/
 	T angle() const
 	{
-		T a = (w >= 1) ? 0 : (w <= -1) ? (2 * T(PI)) : 2 * acos(w);
+		T a = 2 * atan2(sqrt(x*x + y*y + z*z), w);
 		return a <= T(PI) ? a : a - 2 * T(PI);
 	}
 	/*
